@@ -25,13 +25,19 @@ def run(ctx, rule="TYPE-1"):
         with open(cache) as f:
             res = json.load(f)
     if res is None:
-        shutil.copy(os.path.join(facts.REPO, "Cargo.lock"), os.path.join(WIT, "Cargo.lock"))
         target = tempfile.mkdtemp(prefix="verif-witness-")
+        wit = os.path.join(target, "crate")
+        shutil.copytree(WIT, wit, ignore=shutil.ignore_patterns("target", "Cargo.lock"))
+        with open(os.path.join(wit, "Cargo.toml")) as f:
+            toml = f.read().replace('path = "/repo"', 'path = "%s"' % facts.REPO)
+        with open(os.path.join(wit, "Cargo.toml"), "w") as f:
+            f.write(toml)
+        shutil.copy(os.path.join(facts.REPO, "Cargo.lock"), os.path.join(wit, "Cargo.lock"))
         try:
-            env = dict(os.environ, CARGO_TARGET_DIR=target, CARGO_NET_OFFLINE="true")
+            env = dict(os.environ, CARGO_TARGET_DIR=os.path.join(target, "t"), CARGO_NET_OFFLINE="true")
             env.pop("RUSTC_WRAPPER", None)
             env.pop("RUSTFLAGS", None)
-            r = subprocess.run(["cargo", "+nightly", "test", "--doc", "--offline"], cwd=WIT, env=env, stdout=subprocess.PIPE, stderr=subprocess.STDOUT, text=True)
+            r = subprocess.run(["cargo", "+nightly", "test", "--doc", "--offline"], cwd=wit, env=env, stdout=subprocess.PIPE, stderr=subprocess.STDOUT, text=True)
             out = r.stdout
         finally:
             shutil.rmtree(target, ignore_errors=True)
